@@ -7,7 +7,7 @@
    memory faults (1 read outside the segment, 2 read of an uninitialised tempPassword cell, 3 write outside
    the destination buffer/field, 4 segment length wrapped).  `FIXED` is the code with the five repairs of
    docs/fixes/C14_*.diff applied (`FIXED4`: the first four, i.e. the tree after commits 2ca076d..820ad9a), `UNFIXED` the code of the unchanged tree.  `sg` = signedness of plain char. *)
-From Coq Require Import List ZArith.
+From Coq Require Import List ZArith Bool.
 Import ListNotations.
 From V Require Import Base.Bytes Gen.C14Vars C14.Model C14.Proofs C14.Fields.
 Local Open Scope Z_scope.
@@ -161,6 +161,23 @@ Theorem C14_stale_tail_refuted :
   strnlen (slice (two_forms FIXED) O_LocationPwd PWD_MAX) PWD_MAX = PWD_MAX.
 Proof. exact C14_stale_tail_refuted_thm. Qed.
 Print Assumptions C14_stale_tail_refuted.
+
+(* Sixth repair (docs/fixes/C14_numeric_acceptance.diff): the unrepaired code narrowed the time margin to signed char
+   before its range check, so tm0=356 was accepted and stored as 100 (likewise prt=2^32+n as n, qos=25 as 2).  The
+   model follows the repaired code: what is stored is the submitted value when it is valid, -1 otherwise. *)
+Theorem C14_margin_narrowing_refuted :
+  let p := set_ival pv0 ival_356 in
+  str2int (ival p) = 356 /\
+  s8 (nthz (margin_old (zeros CFG_SIZE) 0 p) O_AdditionalTimeMargin) = 100 /\
+  s8 (nthz (margin (zeros CFG_SIZE) 0 p) O_AdditionalTimeMargin) = -1.
+Proof. exact C14_margin_narrowing_refuted_thm. Qed.
+Print Assumptions C14_margin_narrowing_refuted.
+
+Theorem C14_margin_exact : forall c i p, len c = CFG_SIZE -> 0 <= i < 4 ->
+  let v := str2int (ival p) in
+  s8 (nthz (margin c i p) (O_AdditionalTimeMargin + i)) = (if short_num p && (-1 <=? v) && (v <=? 100) then v else -1).
+Proof. exact margin_exact. Qed.
+Print Assumptions C14_margin_exact.
 
 (* the hypothesis of C14_no_fault is satisfiable: the blank device *)
 Example C14_dev_ok_satisfiable : dev_ok {| dcfg := zeros CFG_SIZE; dcmd := None; dpv := pv0 |}.
